@@ -196,6 +196,10 @@ def run(an: Analysis, rep):
     from . import c10
     from . import c13
     rep.run(c13.block_rules, an, SharedRules(rep, "R02.B", "jump targets are rewritten to the index of the block that starts at the target offset (shared with C13's R13.*): 'every jump designates the block that begins at the instruction CPython would jump to'"))
+    from . import c01
+    sho = SharedRules(rep, "R02.O", "decoded lines are shifted by co_firstlineno, all of them, before the instructions read them (shared with C01's R01.5)")
+    rep.run(c01.r015_order, an, sho)
+    rep.run(c01.r015_every_line, an, sho)
     rep.run(c10.format_rules, an, SharedRules(rep, "R02.L", "line-table format constants (shared with C10's R10.*): the line shown for an instruction is read through them"))
     rep.stats.update(an.stats(interps))
     rep.assumptions += ["compiler output never jumps into the middle of an EXTENDED_ARG sequence (CPython's assembler targets the first unit)"]
